@@ -272,6 +272,12 @@ func (nfc *NfcSession) SelectAid(aid []byte) (selected bool, err error) {
 func (nfc *NfcSession) ReadBinaryFromOffset(offset, length int) ([]byte, error) {
 	slog.Debug("ReadBinaryFromOffset", "offset", offset, "length", length)
 
+	// P1-P2 carry a 15-bit offset; with bit 8 of P1 set the chip interprets P1 as a
+	// short EF identifier (ISO/IEC 7816-4, ICAO 9303-10) and reads a different location
+	if offset < 0 || offset > 0x7FFF {
+		return nil, fmt.Errorf("[ReadBinaryFromOffset] offset (%d) cannot be encoded in READ BINARY P1-P2 (max:32767)", offset)
+	}
+
 	var capdu *CApdu = NewCApdu(0x00, INS_READ_BINARY, byte(offset/256), byte(offset%256), nil, length)
 
 	rapdu, err := nfc.DoAPDU(capdu, fmt.Sprintf("Read Binary (offset:%d, length:%d)", offset, length))
